@@ -48,7 +48,7 @@ int main(int argc, char** argv)
     auto j = load_replay(argc, argv);
     std::cout << "replay " << j.value("obligation", "?") << ": all operator sequences up to length 4 on a real flow_graph\n";
     auto grid = grid_t(6, 1.0, { fs::node_status::fixed_value, fs::node_status::fixed_value });
-    xt::xtensor<double, 1> elev{ 0.0, 3.0, 1.0, 4.0, 2.0, 0.5 };
+    xt::xarray<double> elev{ 0.0, 3.0, 1.0, 4.0, 2.0, 0.5 };
     long n_seq = 0;
     for (int len = 1; len <= 4; ++len)
     {
@@ -77,7 +77,17 @@ int main(int argc, char** argv)
             // ---- real code
             bool accepted = true;
             std::unique_ptr<graph_t> g;
-            try { g = std::make_unique<graph_t>(grid, fs::make_flow_operator_sequence<impl_t>(kinds)); }
+            try
+            {
+                if (code % 2 == 0) g = std::make_unique<graph_t>(grid, fs::make_flow_operator_sequence<impl_t>(kinds));
+                else
+                {
+                    // the other way sequences are built (tests, bindings): default-construct, then move-assign
+                    fs::flow_operator_sequence<impl_t> ops;
+                    ops = fs::make_flow_operator_sequence<impl_t>(kinds);
+                    g = std::make_unique<graph_t>(grid, std::move(ops));
+                }
+            }
             catch (std::invalid_argument&) { accepted = false; }
             ++n_seq;
             auto show = [&](const char* what) {
@@ -92,9 +102,9 @@ int main(int argc, char** argv)
             if (g->graph_snapshot_keys() != gkeys || g->elevation_snapshot_keys() != ekeys) { show("snapshot keys"); return 1; }
             for (std::size_t s = 0; s < gkeys.size(); ++s)
                 if (g->graph_snapshot(gkeys[s]).impl().single_flow() != gsingle[s]) { show("snapshot single-flow flag"); return 1; }
-            xt::xtensor<double, 1> before = elev;
+            xt::xarray<double> before = elev;
             const auto& ret = g->update_routes(elev);
-            (void) ret;
+            if ((&ret == &elev) != !elev_upd) { show("update_routes returns the caller's array iff no operator edits elevation"); return 1; }
             if (elev != before) { show("update_routes modified its argument"); return 1; }
             for (const auto& key : gkeys)
             {
